@@ -76,4 +76,10 @@ DRIVERS = {
         "level_text": "For each hook-list/pattern/timeout/spacing configuration every sequence of hook poll answers and per-tick victim events with at most k deviations from the default (hook finishes at once, nothing happens) is executed on the real code over 5 ticks; the monitor decides one-hook-per-victim, priority order, window, finished-or-timed-out-before-kill, destroy-before-signal, single outstanding invocation and identity change. Coverage is all executions within the deviation bound, reported as transitions; states are distinct observable histories.",
         "level_note": "Trusted: scripted hook (records fire/poll/destroy interleaved with the effect log), reference three-case pattern relation, virtual clock. Behaviour exactly at the deadline is left open.",
     },
+    "C09": {
+        "sources": COMMON + ["props/c09.cpp"], "level": "exploration", "engine": "E1",
+        "technique": "bounded-exhaustive product of per-sibling statistic profiles and plugin parameters executed on the real kill plugins (dry), first choice compared with an independent reference ranking in exact/long-double arithmetic with explicit tolerance",
+        "level_text": "Every combination of the per-sibling profiles (sizes up to 2^61, values around 2^31 and 2^32, fractional ratios and pressures, zero and negative rate increases) with every listed parameter value is executed on the real plugin; the cgroup named in the '(dry)' record must be in the reference's arg-max set, must pass the eligibility filter, and must exist whenever a candidate is eligible.",
+        "level_note": "Trusted: reference ranking written from docs/core_plugins.md (A.3 of DESIGN.md), tolerance rules (ties, thresholds within 1e-9 relative, float ratio within 1e-5), simulated statistics files.",
+    },
 }
